@@ -253,7 +253,14 @@ class Prop(common.PropertyCheck):
             # the library reduces the single-precision events in single precision; both evaluations are recorded
             stats.append([float(np.mean(v)), float(max(np.std(v), 0.005)), float(np.mean(v64)), float(max(np.std(v64), 0.005))])
         lim = [float(x) for x in d.range(0)]
-        return {'mask': mask, 'stats': stats, 's0': lim[0], 's1': lim[1], 'nl': nl, 'nh': nh,
+        # one threshold given explicitly (in channel units, like the events), the other left to its default; default (logicle) rescaling
+        one_sided = {}
+        for nm, kw in (('high_only', {'high': 0.95 * R}), ('low_only', {'low': 0.05 * R}), ('both', {'low': 0.05 * R, 'high': 0.95 * R})):
+            try:
+                one_sided[nm] = [bool(x) for x in FlowCal.mef.selection_std(pops, **kw)]
+            except Exception as e:
+                one_sided[nm] = 'raised ' + type(e).__name__
+        return {'one_sided': one_sided, 'range_top': float(R - 1), 'mask': mask, 'stats': stats, 's0': lim[0], 's1': lim[1], 'nl': nl, 'nh': nh,
                 'piled': [bool(np.all(v == 0) or np.all(v == R - 1)) for v in pops_vals]}
 
     def run_impl(self, case):
@@ -430,6 +437,19 @@ class Prop(common.PropertyCheck):
             if got not in verdicts:
                 return 'subpopulation %d (mean %r, std %r) of a sample with range [%r, %r]: selected=%s, the documented rule (1.5%% inside the limits, %g / %g standard deviations) says %s' % (
                     j, st[2], st[3], s0, s1, got, nl, nh, sorted(verdicts))
+        # explicit thresholds are given in the units of the events: a subpopulation piled up beyond one is excluded, one far inside both is kept
+        top = impl['range_top']
+        for nm, msk in impl['one_sided'].items():
+            if not isinstance(msk, list):
+                return 'selection_std with explicit thresholds (%s) %s' % (nm, msk)
+            for j, (got, st) in enumerate(zip(msk, impl['stats'])):
+                mean, sd = st[2], st[3]
+                if nm in ('high_only', 'both') and mean >= 0.97 * (top + 1) and got:
+                    return 'explicit high threshold at 95%% of the range (%s): subpopulation %d with mean %r was selected' % (nm, j, mean)
+                if nm in ('low_only', 'both') and mean <= 0.03 * (top + 1) and got:
+                    return 'explicit low threshold at 5%% of the range (%s): subpopulation %d with mean %r was selected' % (nm, j, mean)
+                if 0.3 * top <= mean <= 0.7 * top and sd <= 0.06 * top and not got:
+                    return 'explicit thresholds (%s): subpopulation %d with mean %r and std %r, far inside both, was not selected' % (nm, j, mean, sd)
         return None
 
     def oracle(self, case, impl):
